@@ -58,7 +58,8 @@ def judge(run, pid, results, also=()):
         for prop, line, code, detail in v["bad"]:
             if prop == "TOOL":
                 raise ToolError("trace %s line %d: %s %s" % (r["file"], line, code, detail))
-            if prop == pid or prop in also:
+            # `also` holds property ids or (property id, conjunct) pairs whose failures count for this check as well
+            if prop == pid or prop in also or (prop, code) in also:
                 ev = vcommon.read_event(r["file"], line)
                 run.violation(event_key(ev, code), "%s at %s: %s" % (code, chessutil.s_to_fen(ev.get("pos", ev.get("p", {"r": [0] * 8, "stm": 0, "cr": 0, "ep": 0}))) if ev["ev"] in ("gen", "chk", "eval") else ev.get("cmd", ev.get("input", "")), detail),
                               replay_of(ev))
